@@ -42,6 +42,11 @@ CHECKS = {
             "Per generated record one patch cycle is crashed at every API boundary, every prefix of the commit's user-block write, (quick: all commit-path + sampled; thorough: all) Python line boundaries inside the ih5 package, and at random instants during large writes; the crashed directory is judged by ledger equality, committed-set reopen and the three allowed outcomes for the complete set.",
             "process kill only (page cache survives); expected new state from an uncrashed dry run of the same deterministic cycle",
             "4 C11"),
+    "C16": ("exploration",
+            "specification-oracle monitor: exhaustive pairs/triples of references against the (group,name,version) order and the supports rule; version tables in every registration order through both registration paths against a pure-function spec of versions()/resolve()",
+            "All 11664 ordered pairs of 108 references (all six comparison operators, hash, supports), transitivity triples (all in thorough), every subset of <=3/<=4 pool versions in every registration order via synthetic entry points on a fresh plugin-group instance and via register_in_group, name codec round trips, UndefVersion subclassing.",
+            "small-scope: 2 groups x 2 names x versions {0,1,2}^3; 12-element version pool",
+            "4 C16"),
 }
 
 NOT_YET = {
